@@ -105,6 +105,7 @@ Obs runEvent(const Spec& s) {
     std::atomic<int> issued{0};
     auto waiterBody = [&]() {
       g_waitStarted.fetch_add(1, std::memory_order_relaxed);
+      vrt::progress();
       ev.wait();
       bool ok = issued.load(std::memory_order_relaxed) != 0;
       bool done = ev.completed();
@@ -117,6 +118,7 @@ Obs runEvent(const Spec& s) {
       vrt::progress();
     };
     auto notifyBody = [&]() {
+      vrt::progress();
       issued.store(1, std::memory_order_relaxed);
       g_issued.store(1, std::memory_order_relaxed);
       ev.notify();
@@ -192,6 +194,7 @@ Obs runLatch(const Spec& s) {
   };
   auto waiterBody = [&]() {
     g_waitStarted.fetch_add(1, std::memory_order_relaxed);
+    vrt::progress();
     latch.wait();
     afterWait("wait()");
   };
@@ -226,7 +229,9 @@ Obs runLatch(const Spec& s) {
   }
   for (size_t t = 0; t < s.ops.size(); ++t) {
     ns.emplace_back([&, t] {
+      vrt::progress();
       start.arriveAndWait();
+      vrt::progress();
       for (int op : s.ops[t]) doOp(op);
     });
   }
@@ -346,7 +351,7 @@ const char* arrivalName(int a) {
 } // namespace
 
 void runC21() {
-  const long n = vrt::g_args.getInt("n", vrt::thorough() ? 8200 : 492);
+  const long n = vrt::g_args.getInt("n", vrt::thorough() ? 8200 : 328);
   vrt::setStateDumper(dumpState);
   for (long idx = 0; idx < n; ++idx) {
     if (!vrt::selected(idx)) continue;
